@@ -164,9 +164,9 @@ func itoa(i int64) string {
 	return string(b)
 }
 
-// DefaultGo converts a configured default (a runtime value in the model; enum members by name)
-// into the Go value the schema author supplies and resolvers receive: enum names become
-// internal values, custom scalar strings stay as configured (defaults are not parsed).
+// DefaultGo converts a configured default (a runtime value in the model, in external form; enum
+// members by name) into the Go value the schema author supplies and resolvers receive: the
+// internal value (enum internals, parsed custom scalars).
 func DefaultGo(s *model.Schema, t model.TypeRef, v *model.Val) interface{} {
 	if v == nil || v.K == "null" {
 		return nil
@@ -216,6 +216,12 @@ func DefaultGo(s *model.Schema, t model.TypeRef, v *model.Val) interface{} {
 		case "ID":
 			if v.K == "int" {
 				return itoa(v.I)
+			}
+		case "Int", "String", "Boolean":
+		default:
+			// custom scalar: the configured default is the internal value of the external form
+			if v.K == "str" {
+				return CustomParse(v.S)
 			}
 		}
 	}
